@@ -735,6 +735,45 @@ def _extract_invoke(psy, case):
     return "\n".join(body[:60])
 
 
+def reduction_clause_monitor(psy_text):
+    """Generated-code monitor: a work-shared loop (!$omp do / parallel do)
+    whose body accumulates into a plain scalar (x = x + ...) must name that
+    scalar in a reduction clause (the reproducible variant accumulates into
+    an array element l_x(1,th_idx) instead and needs none).  Returns a list
+    of (scalar, directive text)."""
+    lines = psy_text.splitlines()
+    bad = []
+    k = 0
+    while k < len(lines):
+        s = lines[k].strip().lower()
+        if s.startswith("!$omp do") or s.startswith("!$omp parallel do"):
+            direc = s
+            j = k + 1
+            while j < len(lines) and lines[j].strip().lower().startswith(
+                    "!$omp&"):
+                direc += " " + lines[j].strip().lower()[6:]
+                j += 1
+            depth = 0
+            while j < len(lines):
+                t = lines[j].strip().lower()
+                if re.match(r"^do\b", t):
+                    depth += 1
+                elif t.startswith("end do") or t.startswith("enddo"):
+                    depth -= 1
+                    if depth == 0:
+                        break
+                m = re.match(r"^([a-z_]\w*)\s*=\s*\1\s*[+]", t)
+                if m and depth > 0:
+                    name = m.group(1)
+                    if not re.search(r"reduction\(\s*\+\s*:[^)]*\b%s\b"
+                                     % re.escape(name), direc):
+                        bad.append((name, direc))
+                j += 1
+            k = j
+        k += 1
+    return bad
+
+
 def run_program(part, job, cases, specs, depth=0):
     """Generate, compile, run one program for `cases` under job['cfg']."""
     cfg = job["cfg"]
@@ -778,6 +817,17 @@ def run_program(part, job, cases, specs, depth=0):
             if cases[0]["alias"] == "none":
                 part.count("refused_plain_call:" + cases[0]["bi"])
             return
+        if cfg["omp"]:
+            part.count("reduction_clause_monitor_evaluations")
+            for name, direc in reduction_clause_monitor(psy):
+                part.violation({
+                    "kind": "reduction_without_clause", "mechanism": None,
+                    "what": "[%s] the work-shared loop under '%s' "
+                            "accumulates into the shared scalar '%s' without "
+                            "a reduction clause (%s)" % (
+                                cname, direc[:120], name,
+                                ",".join(c["bi"] for c in cases)),
+                    "psy": psy, "dedupe": ["redclause", cfg["omp"]]})
         if SELFTEST:
             psy, nmut = selftest_mutate(psy)
             part.count("selftest_mutations", nmut)
@@ -903,7 +953,8 @@ def main(ctx):
     full = []
     for dm, ranks in ((0, 1), (1, 2), (1, 1)):
         for ann in (0, 1):
-            for omp in (None, "parallel_do", "do", "do_reprod", "do_region"):
+            for omp in (None, "parallel_do", "do", "do_reprod", "do_region",
+                        "do_nosched", "do_dynamic"):
                 full.append({"dm": dm, "ranks": ranks, "annexed": ann,
                              "omp": omp})
     if ctx.quick:
@@ -914,7 +965,8 @@ def main(ctx):
                 {"dm": rnd.choice([0, 1, 1]), "ranks": 2, "annexed":
                  rnd.choice([0, 1]),
                  "omp": rnd.choice(["parallel_do", "do", "do_reprod",
-                                    "do_region"])}]
+                                    "do_region", "do_nosched",
+                                    "do_dynamic"])}]
         if cfgs[3]["dm"] == 0:
             cfgs[3]["ranks"] = 1
         rounds = 1
@@ -960,6 +1012,17 @@ def main(ctx):
                 jobs.append(job(cfg, items[b:b + per],
                                 grouped=(not ctx.quick) and rd == 1
                                 and (b // per) % 2 == 0))
+    # ---- every reduction built-in under every OpenMP variant (the data-
+    # sharing of the reduction variable differs between them)
+    red_specs = [s for s in specs if any(a["written"] and a["kind"] == "scalar"
+                                         for a in s["args"])]
+    for omp in ("parallel_do", "do", "do_reprod", "do_region", "do_nosched",
+                "do_dynamic"):
+        rcfg = {"dm": 0, "ranks": 1, "annexed": 0, "omp": omp}
+        rnd = ctx.rng("red", omp)
+        jobs.append(job(rcfg, [item(s, "none", rcfg, rnd)
+                               for s in red_specs]))
+        ctx.count("reduction_sweep_programs")
     # ---- aliasing probes (same field in several argument positions).  The
     # pinned PSyclone refuses every such call; a probe that is accepted is
     # evaluated like any other case.  One single-case program each.
